@@ -1116,8 +1116,9 @@ func parseHexCodepoint(str string) rune {
 	}
 }
 
-// A decimal literal may have leading zeros ("010" is ten). The base-0 modes of
-// strconv and math/big would read such text as legacy octal, so strip them.
+// A decimal literal may have leading zeros ("010" and "0_10" are ten). The base-0
+// modes of strconv and math/big would read such text as legacy octal, so strip
+// the leading zeros together with the separators that follow them.
 func stripDecimalLeadingZeros(str string) string {
 	sign := ""
 	digits := str
@@ -1125,13 +1126,21 @@ func stripDecimalLeadingZeros(str string) string {
 		sign = digits[:1]
 		digits = digits[1:]
 	}
-	if len(digits) < 2 || digits[0] != '0' || digits[1] < '0' || digits[1] > '9' {
+	start := 0
+	for start+1 < len(digits) && digits[start] == '0' {
+		next := start + 1
+		for next < len(digits) && digits[next] == '_' {
+			next++
+		}
+		if next >= len(digits) || digits[next] < '0' || digits[next] > '9' {
+			break
+		}
+		start = next
+	}
+	if start == 0 {
 		return str
 	}
-	for len(digits) > 1 && digits[0] == '0' && digits[1] >= '0' && digits[1] <= '9' {
-		digits = digits[1:]
-	}
-	return sign + digits
+	return sign + digits[start:]
 }
 
 func appendUID(str string, dst []byte) []byte {
